@@ -36,6 +36,7 @@ RECURSIVE ObjTree(_, _, _, _), FieldTrees(_, _, _, _), ValTree(_, _, _, _)
 \* one value of field f under tag `tag`
 ValTree(f, tag, v, ver) ==
     CASE f.k = "struct" -> ObjTree(f.of, tag, v, ver)
+      [] f.k = "attrs"  -> ObjTree("Attribute", tag, v, ver)        \* one element under 1.x (2.0: see FieldTrees)
       [] f.k = "union"  -> ObjTree(v["_k"], IF f.t = "" THEN Tag[ClassTag[v["_k"]]] ELSE tag, v, ver)
       [] f.k = "attrval" ->       \* 1.x Attribute Value: typed by the attribute's name, tag Attribute Value
             LET r == RuleOf(v["_name"]) IN ValTree([f EXCEPT !.k = r.k, !.of = r.of], tag, v.v, ver)
@@ -55,7 +56,11 @@ FieldTrees(fs, i, v, ver) ==
     ELSE LET f == fs[i]
              tag == IF f.t = "" THEN 0 ELSE Tag[f.t] IN
          (IF Live(f, ver) /\ f.n \in DOMAIN v
-          THEN IF IsMulti(f) THEN [j \in 1..Len(v[f.n]) |-> ValTree(f, tag, v[f.n][j], ver)]
+          THEN IF f.k = "attrs" /\ ver >= 20
+               THEN \* KMIP 2.0: the repeated Attribute structures become one Attributes structure
+                    << [tag |-> Tag["ATTRIBUTES"], typ |-> TStructure,
+                        val |-> [j \in 1..Len(v[f.n]) |-> ValTree([f EXCEPT !.k = "attr2"], 0, v[f.n][j].attribute_value, ver)]] >>
+               ELSE IF IsMulti(f) THEN [j \in 1..Len(v[f.n]) |-> ValTree(f, tag, v[f.n][j], ver)]
                ELSE <<ValTree(f, tag, v[f.n], ver)>>
           ELSE <<>>)
          \o FieldTrees(fs, i + 1, v, ver)
@@ -70,9 +75,15 @@ RootTree(cls, tag, v, ver) ==
 --------------------------------------------------------------------------
 (* well-typedness: the reasons why v is not a value of cls defined under ver *)
 
-RECURSIVE Ill(_, _, _), IllVal(_, _, _)
+RECURSIVE Ill(_, _, _), IllVal(_, _, _), Ill20Attr(_)
+\* an Attribute value carried by a KMIP 2.0 Attributes structure: name, typed value, no index
+Ill20Attr(a) ==
+    IF ~({"attribute_name", "attribute_value"} \subseteq DOMAIN a) THEN {"attribute without name or value"}
+    ELSE (IF "attribute_index" \in DOMAIN a THEN {"attribute indices are not defined under 2.0"} ELSE {})
+         \cup IllVal(F("attribute_value", "", "attr2", "", "1", 20, 20), a.attribute_value, 20)
 IllVal(f, v, ver) ==
     CASE f.k = "struct" -> Ill(f.of, v, ver)
+      [] f.k = "attrs"  -> IF ver < 20 THEN Ill("Attribute", v, ver) ELSE Ill20Attr(v)
       [] f.k = "union"  -> IF "_k" \in DOMAIN v /\ v["_k"] \in Classes THEN Ill(v["_k"], v, ver) ELSE {"union value without class: " \o f.n}
       [] f.k \in {"attrval", "attr2"} ->
             IF ~({"_name", "v"} \subseteq DOMAIN v) THEN {"attribute value without name: " \o f.n}
@@ -81,10 +92,8 @@ IllVal(f, v, ver) ==
                  ELSE IllVal([f EXCEPT !.k = r.k, !.of = r.of], v.v, ver)
       [] f.k = "tmpl" ->
             IF ver < 20 THEN Ill("TemplateAttribute", v, ver)
-            ELSE Ill("TemplateAttribute", v, 14)
-                 \cup (IF "names" \in DOMAIN v THEN {"template names are not defined under 2.0"} ELSE {})
-                 \cup (IF "attributes" \in DOMAIN v /\ \E j \in DOMAIN v.attributes : "attribute_index" \in DOMAIN v.attributes[j]
-                       THEN {"attribute indices are not defined under 2.0"} ELSE {})
+            ELSE (IF DOMAIN v \subseteq {"_k", "attributes"} THEN {} ELSE {"template names are not defined under 2.0"})
+                 \cup (IF "attributes" \in DOMAIN v THEN UNION {Ill20Attr(v.attributes[j]) : j \in DOMAIN v.attributes} ELSE {})
       [] OTHER -> IF PrimOK(f.k, v) THEN {} ELSE {"not a value of kind " \o f.k \o ": " \o f.n}
 
 Ill(cls, v, ver) ==
